@@ -2,7 +2,7 @@
 import vcheck
 
 PID = "C08"
-MODULES = ["BeffVerif.Props.C08", "BeffVerif.Props.C08Decls"]
+MODULES = ["BeffVerif.Props.C08", "BeffVerif.Props.C08Decls", "BeffVerif.Props.C08Frag"]
 AUDIT = "BeffVerif/Audit/C08.lean"
 TAGS = ("c08.",)
 HYP = {"NoNamingNearUnion": "D11", "NoNamedIntersectionMember": "D39", "NoNamedSharedKeyInIntersection": "D39b", "NoNamingWithRecursion": "D41"}
